@@ -8,7 +8,7 @@
     outside a pure model: it is checked on every generated history only. *)
 From Perf Require Import Base.Bytes Base.B64 Base.Utf8 Base.Unicode
   Model.Name Model.Extract Model.Units Model.Reader Model.Files
-  Proofs.ReaderSlots Proofs.Reader.
+  Proofs.ReaderSlots Proofs.Reader Proofs.ReaderInert Proofs.FilesLabels.
 
 (** any history of ensureConfig/deleteConfig on the slots (started over
     whatever stale slots [stale] an earlier input left behind the slice):
@@ -105,6 +105,56 @@ Theorem C02_malformed_bench_is_positioned_error :
   step is_space is_lower is_upper atoi parse_float fname n st line = ([RErr fname n k], st).
 Proof. exact malformed_bench_is_positioned_error. Qed.
 Print Assumptions C02_malformed_bench_is_positioned_error.
+
+(** insertion or removal of a line that is neither benchmark, unit nor key/value
+    line (or is a bare benchmark name) anywhere in an input: the records of the
+    lines before it are unchanged, the records of the lines after it are the
+    same records one line further down, the I/O outcome moves with them, and
+    the final states differ at most in line numbers remembered for unit metadata *)
+Theorem C02_other_lines_inert :
+  forall is_space is_lower is_upper atoi parse_float fname n st pre post b ra sta rb e stb,
+  inert is_space is_lower is_upper atoi parse_float b ->
+  read_lines is_space is_lower is_upper atoi parse_float fname n st pre = (ra, None, sta) ->
+  read_lines is_space is_lower is_upper atoi parse_float fname (n + Z.of_nat (length pre)) sta post = (rb, e, stb) ->
+  read_lines is_space is_lower is_upper atoi parse_float fname n st (pre ++ post) = (ra ++ rb, e, stb) /\
+  exists stb',
+    read_lines is_space is_lower is_upper atoi parse_float fname n st (pre ++ Line b :: post)
+      = (ra ++ map (shift_rec 1) rb, option_map (fun x => x + 1)%Z e, stb') /\
+    Rel stb stb'.
+Proof. exact other_lines_inert. Qed.
+Print Assumptions C02_other_lines_inert.
+
+(** a unit line without a unit, or with an item that is not key=value, yields an
+    error positioned at that line; a unit line never yields a result and never
+    touches the configuration *)
+Theorem C02_malformed_unit_is_positioned_error :
+  forall is_space is_lower is_upper atoi parse_float fname n st line fs,
+  classify is_space is_lower is_upper atoi parse_float line = LUnit fs ->
+  (fs = [] \/ exists f, In f (tl fs) /\ parse_unit_field f = UFBad) ->
+  let '(rs, st') := step is_space is_lower is_upper atoi parse_float fname n st line in
+  (exists k, In (RErr fname n k) rs) /\
+  Forall (fun r => match r with RRes _ => False | _ => True end) rs /\
+  Forall (fun r => rec_file r = fname /\ rec_line r = n) rs /\
+  rs_cfg st' = rs_cfg st.
+Proof. exact malformed_unit_is_positioned_error. Qed.
+Print Assumptions C02_malformed_unit_is_positioned_error.
+
+(** the labels Files gives its inputs (pathCount / pathI maps) are the
+    declarative rule: label=path keeps its label verbatim, a path named once
+    (among the unlabelled arguments) is its own label, a path named several
+    times gets path#0, path#1, ... in order *)
+Theorem C02_labels_rule : forall allow_labels paths,
+  files_inputs allow_labels paths = spec_inputs allow_labels paths.
+Proof. exact labels_rule. Qed.
+Print Assumptions C02_labels_rule.
+
+(** ... the k-th unlabelled occurrence of a repeated path is numbered k-1 *)
+Theorem C02_labels_distinct_for_equal_paths : forall ins before i rest,
+  ins = before ++ i :: rest -> fi_labeled i = false -> occurrences ins (fi_path i) <> 1%N ->
+  nth_error (spec_labels_from ins [] ins) (length before) =
+  Some (mkFinput (fi_path i) (fi_path i ++ [x23] ++ dec (occurrences before (fi_path i))) false).
+Proof. exact label_counter. Qed.
+Print Assumptions C02_labels_distinct_for_equal_paths.
 
 (** reading is total *)
 Theorem C02_reader_total :
